@@ -5,8 +5,8 @@
    host of the origin, the computable exclusion of the known classes (host_known_free):
      a domain d is a ToASCII fixed point at the URL deny list (F-C10-1 is the class where it is not), and is outside
        Known_C12 / Known_C10_long;
-     an IPv4 address is read back from its dotted-decimal text (C09_display_rt on this address);
-     nothing for an IPv6 address.
+     nothing for an IPv4 address (Proofs/C16_V4.v: the IDNA step maps dotted-decimal text to itself, for every adapter)
+     and nothing for an IPv6 address.
    rt_unicode_domain_model: the Unicode serialization for a domain, NON-ASCII ToUnicode forms included (P1, P2 of
    Proofs/C16_UniDeny.v + the parser model on a non-ASCII host text, Proofs/C16_RTU.v + C12 clause a_of_u).
    rt_both_model: both serializations, every host kind. *)
@@ -16,7 +16,7 @@ From RU Require Import Base.Prelude Base.Utf8 Base.Utf8Facts Base.U32_c13 Gen.Ta
   Proofs.Idna_C12d_Round Proofs.Idna_C12d_Stmt5.
 From RU Require Import Model.HostT Model.Host Model.UrlRecord Model.Parser Model.Origin Proofs.C09_Wf Proofs.C09_Host Proofs.C09_InstIdna
   Proofs.ListN Proofs.C16_Conc Proofs.C16_Origin Proofs.C16_RT Proofs.C16_RT6 Proofs.C16_RT6Model Proofs.C16_RTParsed Proofs.C16_RTU
-  Proofs.C16_UniHost Proofs.C16_UniDeny.
+  Proofs.C16_UniHost Proofs.C16_UniDeny Proofs.C16_V4.
 
 (* idna::domain_to_unicode(domain).0 of origin.rs, on the UTF-8 bytes of the String *)
 Definition origin_tu (A : adapter) (cfg : bool) (d : list N) : list N :=
@@ -26,8 +26,7 @@ Definition origin_tu (A : adapter) (cfg : bool) (d : list N) : list N :=
 Definition host_known_free (A : adapter) (cfg : bool) (h : host) : Prop :=
   match h with
   | HDomain d => idna_of A cfg d = Some d /\ Known_C12 A cfg d DENY_URL HAllow = false /\ Known_C10_long d = false
-  | HIpv4 a => host_parse (idna_of A cfg) (ipv4_display a) = HostT.Ok (HIpv4 a)
-  | HIpv6 _ => True
+  | _ => True
   end.
 
 (* ---------- characters outside the URL deny list ---------- *)
@@ -191,7 +190,7 @@ Proof.
     destruct (ipv4_display_digits a Ha) as (Hd & Hn & _).
     assert (Hpl : plain_text (host_fmt hd (HIpv4 a))).
     { split; [exact Hn|]. apply forallb_forall. intros x Hxin. rewrite Forall_forall in Hd. apply digit_dot_plain. now apply Hd. }
-    destruct (proj1 (rt_plain dbg hp ho hd (fun x => x) s (HIpv4 a) p H5 Hp Hpl eq_refl HK HB)) as (w & Hw & Hw2).
+    destruct (proj1 (rt_plain dbg hp ho hd (fun x => x) s (HIpv4 a) p H5 Hp Hpl eq_refl (ipv4_display_rt_model A cfg a Ha) HB)) as (w & Hw & Hw2).
     rewrite (unicode_is_ascii hd (origin_tu A cfg) s (HIpv4 a) p) by (intros x; discriminate).
     split; exists w; (split; [exact Hw|apply Hw2]).
   - assert (Hw8 : wf8 ps).
